@@ -430,6 +430,12 @@ func (p *parserState) consumeAny(b []byte, qs []query, lvl int) (n int) {
 		p.querySatisfied = true
 	}
 	if rv <= 0 {
+		// A value that failed to parse must fail the enclosing array or object
+		// too: returning the bytes consumed so far would be read as success by
+		// consumeArray and consumeObject. Only the top level reports them.
+		if lvl > 0 {
+			return 0
+		}
 		return n
 	}
 	n += rv
